@@ -703,6 +703,7 @@ theorem hello_split (P : Prims) (L : SealLaws P) (cls : CipherClass) (ver : Byte
     ∃ (c0 : List Nat) (noise : List (Session.Rec × Bool)) (c1 : List Nat) (M' : List (Session.Rec × Bool))
       (cl2 : List Bytes), M = (⟨chR, c0⟩, false) :: (noise ++ (⟨shR, c1⟩, true) :: M') ∧
       (∀ q ∈ noise, ∃ b car, q = (⟨record 22 ver b, car⟩, false) ∧ b ∈ cl) ∧ (∀ b ∈ cl2, b ∈ cl) ∧
+      cl2.length ≤ cl.length ∧
       (M'.filter fun q => q.2 == false).map (·.1.raw) = sendDir P L cls ver xc (cl2.map DirEv.clear ++ DirEv.ccs :: rest) ∧
       (M'.filter fun q => q.2 == true).map (·.1.raw) = sendDir P L cls ver xs sEvs := by
   obtain ⟨q, post', rfl, hq⟩ := hpost
@@ -729,7 +730,7 @@ theorem hello_split (P : Prims) (L : SealLaws P) (cls : CipherClass) (ver : Byte
       intro r hr
       obtain ⟨q, hq, rfl⟩ := List.mem_map.mp hr
       exact (hpre q (by simp [hq])).2)
-    refine ⟨r0.carriers, pre', rq.carriers, post', cl2, ?_, ?_, ?_, e3, hs2⟩
+    refine ⟨r0.carriers, pre', rq.carriers, post', cl2, ?_, ?_, ?_, by rw [e1]; simp, e3, hs2⟩
     · have h0 : r0 = ⟨chR, r0.carriers⟩ := by have h : r0.raw = chR := hc1; rw [← h]
       have h1 : rq = ⟨shR, rq.carriers⟩ := by have h : rq.raw = shR := hs1; rw [← h]
       rw [← h0, ← h1]; rfl
